@@ -40,7 +40,7 @@ def main():
             src = src.replace('$(dirname "$0")', seeddir).replace('$(cd "$(dirname "$0")" && pwd)', seeddir)
             tmpsh = f'{wt}/.seed-demo.sh'
             open(tmpsh, 'w').write(src)
-            demo_cmd = f'sh {tmpsh}'
+            demo_cmd = f'bash {tmpsh}'
             def run_demo():
                 rc, out = sh(demo_cmd, cwd=wt, timeout=900)
                 # scripts that only print a verdict: a FAIL / BROKEN / DIFFERENT line is a failure too
